@@ -224,6 +224,140 @@ func TestMineCancelled(t *testing.T) {
 	})
 }
 
+// ---- histories on one Worker: what an earlier call (cancelled, on long data, ...) leaves behind ----
+
+type histStep struct {
+	DataLen int  `json:"data_len"` // data = pattern of this length (long data spans many hash blocks)
+	Fill    byte `json:"fill"`
+	K       int  `json:"k"`      // target 3^k/len
+	Cancel  int  `json:"cancel"` // 0 never, 1 context cancelled before the call, 2 cancelled after 200 us
+}
+
+type histCase struct {
+	Workers int        `json:"workers"`
+	Steps   []histStep `json:"steps"`
+}
+
+func patternData(n int, fill byte) []byte {
+	d := make([]byte, n)
+	for i := range d {
+		d[i] = fill + byte(i*7)
+	}
+	return d
+}
+
+func checkHistory(c histCase) (h.Info, error) {
+	w := pow.New(c.Workers)
+	info := h.Info{Class: "history/plain", NT: len(c.Steps) > 1}
+	sawCancelled := false
+	for i, st := range c.Steps {
+		data := patternData(st.DataLen, st.Fill)
+		target := boundary(st.K, st.DataLen+8)
+		ctx, cancel := context.WithTimeout(context.Background(), 60*time.Second)
+		switch st.Cancel {
+		case 1:
+			cancel()
+		case 2:
+			go func() { time.Sleep(200 * time.Microsecond); cancel() }()
+		}
+		nonce, err := w.Mine(ctx, data, target)
+		cancel()
+		if err != nil {
+			if st.Cancel != 0 {
+				sawCancelled = true
+			}
+			continue // an error return is not a violation of this property
+		}
+		if sawCancelled && st.Cancel == 0 {
+			info.Class = "history/success-after-cancelled-call"
+		}
+		if got := pow.Score(msgOf(data, nonce)); !(got >= target) {
+			return info, fmt.Errorf("call %d of a history on one Worker (%d workers; steps %+v): Mine(data = %d pattern bytes, target 3^%d/len) returned nonce %d without error, but its Score %v is below the target %v", i, c.Workers, c.Steps, st.DataLen, st.K, nonce, got, target)
+		}
+	}
+	return info, nil
+}
+
+func TestMineHistories(t *testing.T) {
+	h.Run(t, h.Sub[histCase]{
+		Prop: "C11", Name: "mine-histories", N: 200,
+		Gen: func(t *rapid.T) histCase {
+			c := histCase{Workers: h.OneOf(t, "workers", 1, 2, 4)}
+			for i, n := 0, rapid.IntRange(2, 4).Draw(t, "n"); i < n; i++ {
+				st := histStep{Fill: rapid.Byte().Draw(t, "fill"), K: rapid.IntRange(0, 7).Draw(t, "k")}
+				switch h.Pick(t, "lk", 3, 2, 2) {
+				case 0:
+					st.DataLen = rapid.IntRange(0, 64).Draw(t, "dl")
+				case 1:
+					st.DataLen = h.OneOf(t, "dll", 127, 128, 129, 1000, 4096)
+				default:
+					st.DataLen = h.OneOf(t, "dlx", 65535, 65536, 65537, 131073, 200000)
+				}
+				st.Cancel = h.Pick(t, "cancel", 3, 2, 1)
+				if st.Cancel != 0 {
+					st.K = rapid.IntRange(0, 30).Draw(t, "kc")
+				}
+				c.Steps = append(c.Steps, st)
+			}
+			c.Steps[len(c.Steps)-1].Cancel = 0
+			if c.Steps[len(c.Steps)-1].K > 7 {
+				c.Steps[len(c.Steps)-1].K = 7
+			}
+			return c
+		},
+		Check:   checkHistory,
+		Require: []string{"history/success-after-cancelled-call"},
+		Rule:    "histories of 2..4 Mine calls on one Worker: data lengths 0..64, around hash-block sizes and 64 KiB..200000 bytes, targets 3^k/len, each call uncancelled, cancelled before it starts or cancelled after 200 us; every nonce returned without error must meet its own target; non-trivial = at least two calls",
+	})
+}
+
+// ---- concurrent Mine calls on one shared Worker ----
+
+type concCase struct {
+	Workers int        `json:"workers"`
+	Jobs    []mineCase `json:"jobs"`
+	Iters   int        `json:"iters"`
+}
+
+func checkConcurrent(c concCase) (h.Info, error) {
+	info := h.Info{Class: fmt.Sprintf("goroutines=%d", len(c.Jobs)), NT: len(c.Jobs) > 1}
+	w := pow.New(c.Workers)
+	err := h.Parallel(len(c.Jobs), func(g int) error {
+		jb := c.Jobs[g]
+		for it := 0; it < c.Iters; it++ {
+			ctx, cancel := context.WithTimeout(context.Background(), 60*time.Second)
+			nonce, err := w.Mine(ctx, append([]byte{}, jb.Data...), jb.target())
+			cancel()
+			if err != nil {
+				continue
+			}
+			if e := judge(jb, nonce); e != nil {
+				return fmt.Errorf("goroutine %d of %d calling Mine on one shared Worker, call %d: %w", g, len(c.Jobs), it, e)
+			}
+		}
+		return nil
+	})
+	return info, err
+}
+
+func TestMineConcurrent(t *testing.T) {
+	h.Run(t, h.Sub[concCase]{
+		Prop: "C11", Name: "concurrent-callers-one-worker", N: 60,
+		Gen: func(t *rapid.T) concCase {
+			c := concCase{Workers: h.OneOf(t, "workers", 1, 2, 4), Iters: 6}
+			for i := h.OneOf(t, "g", 2, 4, 8); i > 0; i-- {
+				jb := mineCase{Data: h.Bytes(t, "data", 0, 40), Workers: c.Workers, Class: "concurrent"}
+				jb.Target = bitsOf(boundary(rapid.IntRange(3, 7).Draw(t, "k"), len(jb.Data)+8))
+				c.Jobs = append(c.Jobs, jb)
+			}
+			return c
+		},
+		Check:   checkConcurrent,
+		Require: []string{"goroutines=2", "goroutines=8"},
+		Rule:    "schedules: 2..8 goroutines released together call Mine on ONE shared Worker (1..4 worker goroutines each), each with its own data and a target of 3..7 zero trits, 6 times; every nonce returned without error must meet the caller's own target for the caller's own data; all non-trivial",
+	})
+}
+
 // boundary targets: fl(3^k/len) and its neighbours
 func boundary(k int, ell int) float64 {
 	r := new(big.Rat).SetFrac(ref.Pow3(k), big.NewInt(int64(ell)))
